@@ -362,7 +362,9 @@ func (c *Ctx) lane(idx int) {
 				buf.WriteByte('\n')
 				j++
 			}
-			child.in.Write(buf.Bytes())
+			// asynchronous: a batch larger than the pipe buffer must not block the lane while the child hangs on a case
+			// (the watchdog below could never fire)
+			go func(w io.Writer, b []byte) { w.Write(b) }(child.in, append([]byte(nil), buf.Bytes()...))
 			k := i
 			for k < j {
 				to := checks[batch[k].Check].Timeout
